@@ -571,6 +571,23 @@ pub fn n_workers() -> usize {
 }
 
 /// Runs `f(i)` for i in 0..n on a pool of OS threads (dynamic scheduling).
+/// `par_for` with an explicit number of workers
+pub fn par_for_w<F: Fn(usize) + Sync>(n: usize, workers: usize, f: F) {
+    let next = AtomicUsize::new(0);
+    let w = workers.max(1).min(n.max(1));
+    std::thread::scope(|sc| {
+        for _ in 0..w {
+            sc.spawn(|| loop {
+                let i = next.fetch_add(1, Ordering::Relaxed);
+                if i >= n {
+                    break;
+                }
+                f(i);
+            });
+        }
+    });
+}
+
 pub fn par_for<F: Fn(usize) + Sync>(n: usize, f: F) {
     let next = AtomicUsize::new(0);
     let w = n_workers().min(n.max(1));
